@@ -86,6 +86,12 @@ def wl_cms(ctx, rng, case):
             neg = rng.random() < 0.4 and can_remove
             k2 = rng.choice(keys)
             (t.remove if neg else t.add)(k2, n2)
+            if rng.random() < 0.4:
+                t = type(s).frombytes(bytes(t), **extra, **bl.kw_hash(hf))  # the argument is a LOADED copy
+                ctx.count("joins_with_a_loaded_argument")
+            if rng.random() < 0.4:
+                s = type(s).frombytes(bytes(s), **extra, **bl.kw_hash(hf))  # ... and so is the receiver
+                ctx.count("joins_with_a_loaded_receiver")
             tcells = cms_cells(t)
             case.op("join", k2, -n2 if neg else n2)
             recv_before = list(model)
@@ -116,7 +122,11 @@ def wl_cms(ctx, rng, case):
                           returned=ret, check=s.check(k))
                 ctx.count("non_min_return_checks")
         data = bytes(s)
-        ctx.check(bytes(type(s).frombytes(data, **extra, **bl.kw_hash(hf))) == data, f"export -> load -> export is not the identity {where}")
+        loaded = type(s).frombytes(data, **extra, **bl.kw_hash(hf))
+        ctx.check(bytes(loaded) == data, f"export -> load -> export is not the identity {where}")
+        if rng.random() < 0.25 and not extra:
+            s = loaded  # "the structure can still be exported and loaded": the history goes on with the loaded copy
+            ctx.count("histories_continued_on_a_loaded_copy")
         sat_hi += any(c == I32MAX for c in model)
         sat_lo += any(c == I32MIN for c in model)
         ctx.count("cell_comparisons", len(model))
